@@ -102,9 +102,16 @@ def api_surface(rep, rng, tier):
         far = P[seg_dist(A.points, P) > 0.05 * size]
         if len(far) and np.any(A.on_boundary(far, radius=1e-3 * size)):
             rep.violation("on_boundary reports points far from the outline", case)
-        if len(far) and not np.array_equal(A.on_boundary(np.concatenate([A.points[:3], far]), radius=1e-3 * size, index=True),
-                                           np.where(A.on_boundary(np.concatenate([A.points[:3], far]), radius=1e-3 * size))[0]):
-            rep.violation("on_boundary(index=True) is not the indices of on_boundary()", case)
+        if len(far):
+            mix = np.concatenate([far[:5], A.points[:3], far[5:], mids[:4]])
+            order = list(range(len(mix)))
+            rng.shuffle(order)
+            mix = mix[order]
+            if not np.array_equal(A.on_boundary(mix, radius=1e-3 * size, index=True),
+                                  np.where(A.on_boundary(mix, radius=1e-3 * size))[0]):
+                rep.violation("on_boundary(index=True) is not the indices of on_boundary()", case)
+            if not np.array_equal(A.contains_points(mix, index=True), np.where(A.contains_points(mix))[0]):
+                rep.violation("contains_points(index=True) is not the indices of contains_points()", case)
         # ---- from_* class methods with three operands, operator overloads
         B = A.translate(0.35 * size, 0.1 * size).set_name("B")
         C = A.rotate(40.0, origin=tuple(A.points.mean(axis=0))).translate(-0.2 * size, 0.25 * size).set_name("C")
